@@ -164,8 +164,21 @@ impl Image {
         Image { files, zones, midnight_gap_zones, links }
     }
     pub fn get(&self, abs: &Path) -> Option<&ZoneFile> {
+        // like the real file system: a trailing slash on a regular file is
+        // ENOTDIR, an embedded NUL is an error
+        let text = abs.to_str()?;
+        if text.ends_with('/') || text.contains('\0') {
+            return None;
+        }
         let rel = abs.strip_prefix(ZONEINFO).ok()?;
         self.files.get(rel.to_str()?)
+    }
+    /// Would `FsTzdbProvider` find a file for this identifier on the
+    /// simulated disk? (Same path construction as `Tzif::read_tzif`.)
+    pub fn resolves(&self, identifier: &str) -> bool {
+        let mut path = std::path::PathBuf::from(format!("{ZONEINFO}/"));
+        path.push(identifier);
+        self.get(&path).map(|z| z.is_tzif).unwrap_or(false)
     }
     pub fn zone(&self, id: &str) -> Option<&ZoneFile> {
         self.files.get(id)
